@@ -434,6 +434,28 @@ pub proof fn lemma_single_excludes(c: char, x: char)
 }
 
 
+pub proof fn lemma_split_pieces_no_sep(s: Seq<char>, c: char)
+    ensures forall|i: int| 0 <= i < split_spec(s, c).len() ==> !has_char(#[trigger] split_spec(s, c)[i], c)
+    decreases s.len()
+{
+    lemma_first_index(s, c);
+    let f = first_index_of(s, c);
+    if f < 0 || f >= s.len() {
+        assert(split_spec(s, c) =~= seq![s]);
+    } else {
+        let head = s.subrange(0, f);
+        let tail = s.subrange(f + 1, s.len() as int);
+        lemma_split_pieces_no_sep(tail, c);
+        if has_char(head, c) { let i = choose|i: int| 0 <= i < head.len() && head[i] == c; assert(s[i] == c); }
+        let ps = split_spec(s, c);
+        assert(ps =~= seq![head] + split_spec(tail, c));
+        assert forall|i: int| 0 <= i < ps.len() implies !has_char(#[trigger] ps[i], c) by {
+            if i == 0 { assert(ps[0] == head); } else { assert(ps[i] == split_spec(tail, c)[i - 1]); }
+        }
+    }
+}
+
+
 // ---- unit T.PurlField  <= purl/src/parse.rs:112 ----
 #[derive(Debug, Clone, Copy)]
 pub enum PurlField {
@@ -1826,6 +1848,488 @@ pub proof fn lemma_canon_injective(ty1: Seq<char>, p1: PurlParts, n1: Seq<Seq<ch
 {
     lemma_parse_canon(ty1, p1, n1, s1);
     lemma_parse_canon(ty2, p2, n2, s2);
+}
+
+// ---- unit theory.inverse5  <= (contracts):0 ----
+// ---- part 5 (C09): the inverse direction for ARBITRARY namespace / subpath texts ----
+// A builder may put any text into namespace and subpath. Printing and parsing then gives back the text "after dropping
+// insignificant segments": the non-empty '/'-pieces of the namespace, the pieces of the subpath that are not "", "." or "..".
+pub open spec fn keep_ns(ps: Seq<Seq<char>>) -> Seq<Seq<char>> decreases ps.len() {
+    if ps.len() == 0 { Seq::<Seq<char>>::empty() } else if ns_skipped(ps.last()) { keep_ns(ps.drop_last()) } else { keep_ns(ps.drop_last()).push(ps.last()) }
+}
+pub open spec fn keep_sub(ps: Seq<Seq<char>>) -> Seq<Seq<char>> decreases ps.len() {
+    if ps.len() == 0 { Seq::<Seq<char>>::empty() } else if sub_skipped(ps.last()) { keep_sub(ps.drop_last()) } else { keep_sub(ps.drop_last()).push(ps.last()) }
+}
+/// C09: "namespace and subpath compared after dropping insignificant segments (empty ones, and '.'/'..' in the subpath)"
+pub open spec fn sig_ns(n: Seq<char>) -> Seq<char> { join_segs(keep_ns(split_spec(n, '/'))) }
+pub open spec fn sig_sub(s: Seq<char>) -> Seq<char> { join_segs(keep_sub(split_spec(s, '/'))) }
+
+pub open spec fn slash_free(ps: Seq<Seq<char>>) -> bool { forall|i: int| 0 <= i < ps.len() ==> !has_char(#[trigger] ps[i], '/') }
+
+/// folding the encoded pieces with the namespace rule: the '/'-join of the non-empty pieces
+pub proof fn lemma_ns_fold_of_enc_gen(set: SetId, ps: Seq<Seq<char>>)
+    requires slash_free(ps)
+    ensures ns_fold(enc_each(set, ps)) == Some(join_segs(keep_ns(ps)))
+    decreases ps.len()
+{
+    let es = enc_each(set, ps);
+    if ps.len() > 0 {
+        let init = ps.drop_last();
+        assert(slash_free(init)) by { assert forall|i: int| 0 <= i < init.len() implies !has_char(#[trigger] init[i], '/') by { assert(init[i] == ps[i]); } }
+        lemma_ns_fold_of_enc_gen(set, init);
+        assert(es.drop_last() =~= enc_each(set, init));
+        assert(es.last() == enc(set, ps.last()));
+        lemma_enc_len(set, ps.last());
+        axiom_dec_enc(set, ps.last());
+        assert(!has_char(ps[ps.len() - 1], '/'));
+        assert(keep_ns(init).push(ps.last()).drop_last() =~= keep_ns(init));
+    }
+}
+
+pub proof fn lemma_dotdot_is_all_dots(s: Seq<char>)
+    ensures is_dot(s) ==> (s.len() == 1 && s[0] == '.'), is_dotdot(s) ==> (s.len() == 2 && s[0] == '.' && s[1] == '.'),
+        (s.len() == 1 && s[0] == '.') ==> is_dot(s), (s.len() == 2 && s[0] == '.' && s[1] == '.') ==> is_dotdot(s)
+{
+    if s.len() == 1 && s[0] == '.' { assert(s =~= seq!['.']); }
+    if s.len() == 2 && s[0] == '.' && s[1] == '.' { assert(s =~= seq!['.', '.']); }
+}
+
+/// an encoding is "", "." or ".." exactly when the text is (no escape set touches '.', escapes contain '%')
+pub proof fn lemma_enc_skipped(set: SetId, s: Seq<char>)
+    requires !escaped_c(set, '.')
+    ensures sub_skipped(enc(set, s)) == sub_skipped(s)
+{
+    lemma_enc_len(set, s);
+    lemma_enc_dot(set, s);
+    if is_dot(s) || is_dotdot(s) {
+        assert forall|i: int| 0 <= i < s.len() implies !escaped_c(set, #[trigger] s[i]) by { }
+        lemma_enc_identity(set, s);
+    }
+}
+
+/// folding the encoded pieces with the subpath rule: the '/'-join of the pieces that are not "", "." or ".."
+pub proof fn lemma_sub_fold_of_enc_gen(set: SetId, ps: Seq<Seq<char>>)
+    requires slash_free(ps), !escaped_c(set, '.')
+    ensures sub_fold(enc_each(set, ps)) == Some(join_segs(keep_sub(ps)))
+    decreases ps.len()
+{
+    let es = enc_each(set, ps);
+    if ps.len() > 0 {
+        let init = ps.drop_last();
+        assert(slash_free(init)) by { assert forall|i: int| 0 <= i < init.len() implies !has_char(#[trigger] init[i], '/') by { assert(init[i] == ps[i]); } }
+        lemma_sub_fold_of_enc_gen(set, init);
+        assert(es.drop_last() =~= enc_each(set, init));
+        assert(es.last() == enc(set, ps.last()));
+        lemma_enc_skipped(set, ps.last());
+        axiom_dec_enc(set, ps.last());
+        assert(!has_char(ps[ps.len() - 1], '/'));
+        assert(keep_sub(init).push(ps.last()).drop_last() =~= keep_sub(init));
+    }
+}
+
+/// encoding with a set that leaves '/' alone commutes with splitting at '/'
+pub proof fn lemma_split_of_enc(set: SetId, s: Seq<char>)
+    requires !escaped_c(set, '/')
+    ensures split_spec(enc(set, s), '/') == enc_each(set, split_spec(s, '/'))
+    decreases s.len()
+{
+    lemma_slash_unescaped();
+    lemma_first_index(s, '/');
+    lemma_enc_preserves(set, s, '/');
+    let f = first_index_of(s, '/');
+    if f < 0 || f >= s.len() {
+        lemma_split_no_sep(s, '/');
+        lemma_split_no_sep(enc(set, s), '/');
+        assert(enc_each(set, seq![s]) =~= seq![enc(set, s)]);
+    } else {
+        let a = s.subrange(0, f);
+        let rest = s.subrange(f + 1, s.len() as int);
+        assert(s =~= a + seq!['/'] + rest);
+        if has_char(a, '/') { let i = choose|i: int| 0 <= i < a.len() && a[i] == '/'; assert(s[i] == '/'); }
+        lemma_enc_concat(set, a + seq!['/'], rest);
+        lemma_enc_concat(set, a, seq!['/']);
+        lemma_enc_single(set, '/');
+        let ea = enc(set, a);
+        let er = enc(set, rest);
+        assert(enc(set, s) =~= ea + seq!['/'] + er);
+        lemma_enc_preserves(set, a, '/');
+        lemma_split_join(ea, er, '/');
+        let e = enc(set, s);
+        assert(e.subrange(0, ea.len() as int) =~= ea);
+        assert(e.subrange(ea.len() as int + 1, e.len() as int) =~= er);
+        lemma_split_of_enc(set, rest);
+        assert(split_spec(s, '/') =~= seq![a] + split_spec(rest, '/'));
+        assert(split_spec(e, '/') =~= seq![ea] + split_spec(er, '/'));
+        assert(enc_each(set, seq![a] + split_spec(rest, '/')) =~= seq![ea] + enc_each(set, split_spec(rest, '/')));
+    }
+}
+
+/// a skipped first piece does not change the fold
+pub proof fn lemma_ns_fold_prepend(e: Seq<char>, ps: Seq<Seq<char>>)
+    requires ns_skipped(e)
+    ensures ns_fold(seq![e] + ps) == ns_fold(ps)
+    decreases ps.len()
+{
+    let all = seq![e] + ps;
+    if ps.len() == 0 {
+        assert(all =~= seq![e]);
+        assert(all.drop_last() =~= Seq::<Seq<char>>::empty());
+        assert(all.last() == e);
+        assert(ns_fold(Seq::<Seq<char>>::empty()) == Some(Seq::<char>::empty()));
+        assert(ps =~= Seq::<Seq<char>>::empty());
+    } else {
+        assert(all.drop_last() =~= seq![e] + ps.drop_last());
+        assert(all.last() == ps.last());
+        lemma_ns_fold_prepend(e, ps.drop_last());
+    }
+}
+pub proof fn lemma_sub_fold_prepend(e: Seq<char>, ps: Seq<Seq<char>>)
+    requires sub_skipped(e)
+    ensures sub_fold(seq![e] + ps) == sub_fold(ps)
+    decreases ps.len()
+{
+    let all = seq![e] + ps;
+    if ps.len() == 0 {
+        assert(all =~= seq![e]);
+        assert(all.drop_last() =~= Seq::<Seq<char>>::empty());
+        assert(all.last() == e);
+        assert(sub_fold(Seq::<Seq<char>>::empty()) == Some(Seq::<char>::empty()));
+        assert(ps =~= Seq::<Seq<char>>::empty());
+    } else {
+        assert(all.drop_last() =~= seq![e] + ps.drop_last());
+        assert(all.last() == ps.last());
+        lemma_sub_fold_prepend(e, ps.drop_last());
+    }
+}
+
+/// trimming '/' at both ends only removes empty pieces, which both folds skip
+pub proof fn lemma_fold_trim_start(x: Seq<char>)
+    ensures ns_fold(split_spec(trim_start_spec(x, '/'), '/')) == ns_fold(split_spec(x, '/')),
+        sub_fold(split_spec(trim_start_spec(x, '/'), '/')) == sub_fold(split_spec(x, '/')),
+    decreases x.len()
+{
+    if x.len() > 0 && x[0] == '/' {
+        let y = x.subrange(1, x.len() as int);
+        lemma_fold_trim_start(y);
+        lemma_first_index(x, '/');
+        assert(first_index_of(x, '/') == 0);
+        assert(x.subrange(0, 0) =~= Seq::<char>::empty());
+        assert(split_spec(x, '/') =~= seq![Seq::<char>::empty()] + split_spec(y, '/'));
+        lemma_ns_fold_prepend(Seq::<char>::empty(), split_spec(y, '/'));
+        lemma_sub_fold_prepend(Seq::<char>::empty(), split_spec(y, '/'));
+    }
+}
+pub proof fn lemma_fold_trim_end(x: Seq<char>)
+    ensures ns_fold(split_spec(trim_end_spec(x, '/'), '/')) == ns_fold(split_spec(x, '/')),
+        sub_fold(split_spec(trim_end_spec(x, '/'), '/')) == sub_fold(split_spec(x, '/')),
+    decreases x.len()
+{
+    if x.len() > 0 && x.last() == '/' {
+        let y = x.drop_last();
+        lemma_fold_trim_end(y);
+        let e = Seq::<char>::empty();
+        assert(!has_char(e, '/'));
+        lemma_split_append(y, e, '/');
+        assert(y + seq!['/'] + e =~= x);
+        let ps = split_spec(y, '/');
+        assert(ps.push(e).drop_last() =~= ps);
+    }
+}
+
+/// C09 (namespace): print -> split -> decode gives the text after dropping empty segments
+pub proof fn lemma_ns_roundtrip_gen(n: Seq<char>)
+    ensures ns_fold(split_spec(trim_spec(enc(SetId::Path, n), '/'), '/')) == Some(sig_ns(n))
+{
+    lemma_slash_unescaped();
+    let e = enc(SetId::Path, n);
+    lemma_fold_trim_end(trim_start_spec(e, '/'));
+    lemma_fold_trim_start(e);
+    lemma_split_of_enc(SetId::Path, n);
+    lemma_split_pieces_no_sep(n, '/');
+    lemma_ns_fold_of_enc_gen(SetId::Path, split_spec(n, '/'));
+}
+/// C09 (subpath): ... after dropping "", "." and ".." segments
+pub proof fn lemma_sub_roundtrip_gen(s: Seq<char>)
+    ensures sub_fold(split_spec(trim_spec(enc(SetId::Fragment, s), '/'), '/')) == Some(sig_sub(s))
+{
+    lemma_slash_unescaped();
+    let e = enc(SetId::Fragment, s);
+    lemma_fold_trim_end(trim_start_spec(e, '/'));
+    lemma_fold_trim_start(e);
+    lemma_split_of_enc(SetId::Fragment, s);
+    lemma_split_pieces_no_sep(s, '/');
+    lemma_sub_fold_of_enc_gen(SetId::Fragment, split_spec(s, '/'));
+}
+
+// ---- a namespace with a significant segment keeps one (C08: the maven rule is stable under print -> parse) ----
+pub proof fn lemma_split_has_nonempty(n: Seq<char>)
+    requires !all_char(n, '/')
+    ensures exists|j: int| 0 <= j < split_spec(n, '/').len() && (#[trigger] split_spec(n, '/')[j]).len() > 0
+    decreases n.len()
+{
+    lemma_first_index(n, '/');
+    let f = first_index_of(n, '/');
+    let k = choose|k: int| 0 <= k < n.len() && n[k] != '/';
+    if f < 0 || f >= n.len() {
+        assert(split_spec(n, '/') =~= seq![n]);
+        assert(split_spec(n, '/')[0].len() > 0);
+    } else {
+        let head = n.subrange(0, f);
+        let rest = n.subrange(f + 1, n.len() as int);
+        let ps = split_spec(n, '/');
+        assert(ps =~= seq![head] + split_spec(rest, '/'));
+        if head.len() > 0 { assert(ps[0] == head); }
+        else {
+            assert(f == 0);
+            assert(rest[k - 1] == n[k]);
+            assert(!all_char(rest, '/'));
+            lemma_split_has_nonempty(rest);
+            let j = choose|j: int| 0 <= j < split_spec(rest, '/').len() && (#[trigger] split_spec(rest, '/')[j]).len() > 0;
+            assert(ps[j + 1] == split_spec(rest, '/')[j]);
+        }
+    }
+}
+
+pub proof fn lemma_keep_ns_props(ps: Seq<Seq<char>>)
+    requires slash_free(ps)
+    ensures slash_free_nonempty(keep_ns(ps)),
+        (exists|j: int| 0 <= j < ps.len() && (#[trigger] ps[j]).len() > 0) ==> keep_ns(ps).len() > 0
+    decreases ps.len()
+{
+    if ps.len() > 0 {
+        let init = ps.drop_last();
+        assert(slash_free(init)) by { assert forall|i: int| 0 <= i < init.len() implies !has_char(#[trigger] init[i], '/') by { assert(init[i] == ps[i]); } }
+        lemma_keep_ns_props(init);
+        let k = keep_ns(ps);
+        assert(!has_char(ps[ps.len() - 1], '/'));
+        assert forall|i: int| 0 <= i < k.len() implies (#[trigger] k[i]).len() > 0 && !has_char(k[i], '/') by {
+            if ns_skipped(ps.last()) { assert(k[i] == keep_ns(init)[i]); }
+            else if i < keep_ns(init).len() { assert(k[i] == keep_ns(init)[i]); } else { assert(k[i] == ps.last()); }
+        }
+        if exists|j: int| 0 <= j < ps.len() && (#[trigger] ps[j]).len() > 0 {
+            let j = choose|j: int| 0 <= j < ps.len() && (#[trigger] ps[j]).len() > 0;
+            if j < init.len() { assert(init[j] == ps[j]); }
+        }
+    }
+}
+
+pub proof fn lemma_sig_ns_all_slash(n: Seq<char>)
+    requires !all_char(n, '/')
+    ensures sig_ns(n).len() > 0, !all_char(sig_ns(n), '/')
+{
+    lemma_split_has_nonempty(n);
+    lemma_split_pieces_no_sep(n, '/');
+    let ps = split_spec(n, '/');
+    assert(slash_free(ps));
+    lemma_keep_ns_props(ps);
+    lemma_join_ends(keep_ns(ps));
+    assert(sig_ns(n)[0] != '/');
+}
+
+// ---- unit theory.inverse6  <= (contracts):0 ----
+// ---- part 6 (C09): phase_a / phase_b applied to canon_spec of ARBITRARY handed-out parts ----
+// (generated from part 4 by replacing the two round-trip steps with their general versions; see tools note in DESIGN.md)
+/// what build() guarantees of the parts whatever the builder was given: a name, the qualifier invariant, no empty value
+pub open spec fn gen_parts(p: PurlParts) -> bool {
+    p.name@.len() > 0 && wf_seq(p.qualifiers.qualifiers@)
+    && (forall|i: int| 0 <= i < p.qualifiers.qualifiers@.len() ==> (#[trigger] p.qualifiers.qualifiers@[i]).1@.len() > 0)
+}
+
+pub proof fn lemma_sig_empty()
+    ensures sig_ns(Seq::<char>::empty()) == Seq::<char>::empty(), sig_sub(Seq::<char>::empty()) == Seq::<char>::empty()
+{
+    let e = Seq::<char>::empty();
+    lemma_first_index(e, '/');
+    assert(split_spec(e, '/') =~= seq![e]);
+    let one = seq![e];
+    assert(one.drop_last() =~= Seq::<Seq<char>>::empty());
+    assert(one.last() == e);
+    assert(ns_skipped(e) && sub_skipped(e));
+    assert(keep_ns(Seq::<Seq<char>>::empty()) =~= Seq::<Seq<char>>::empty());
+    assert(keep_sub(Seq::<Seq<char>>::empty()) =~= Seq::<Seq<char>>::empty());
+    assert(keep_ns(one) == keep_ns(one.drop_last()));
+    assert(keep_sub(one) == keep_sub(one.drop_last()));
+    assert(join_segs(Seq::<Seq<char>>::empty()) =~= Seq::<char>::empty());
+}
+
+pub open spec fn r1_of(p: PurlParts) -> Seq<char> {
+    opt_part(p.namespace@.len() > 0, enc(SetId::Path, p.namespace@) + seq!['/']) + enc(SetId::Segment, p.name@)
+}
+
+/// the version is what follows the last '@' of the path part
+pub proof fn lemma_pb_version_gen(p: PurlParts)
+    ensures
+        rsplit_at(rest_of(p), '@').0 == r1_of(p),
+        (match rsplit_at(rest_of(p), '@').1 { None => Some(Seq::<char>::empty()), Some(x) => dec(x) }) == Some(p.version@),
+{
+    lemma_lits();
+    let ens = enc(SetId::Path, p.namespace@);
+    let en = enc(SetId::Segment, p.name@);
+    let ev = enc(SetId::Path, p.version@);
+    let nsp = opt_part(p.namespace@.len() > 0, ens + seq!['/']);
+    let r1 = r1_of(p);
+    let r = rest_of(p);
+    lemma_enc_excludes(SetId::Path, p.namespace@, '@');
+    lemma_enc_excludes(SetId::Segment, p.name@, '@');
+    lemma_enc_excludes(SetId::Path, p.version@, '@');
+    lemma_single_excludes('/', '@');
+    lemma_has_char_concat(ens, seq!['/'], '@');
+    lemma_has_char_concat(nsp, en, '@');
+    assert(!has_char(Seq::<char>::empty(), '@'));
+    assert(!has_char(r1, '@'));
+    if p.version@.len() > 0 {
+        assert(r =~= r1 + seq!['@'] + ev);
+        lemma_rsplit_join(r1, ev, '@');
+        assert(r.subrange(0, r1.len() as int) =~= r1);
+        assert(r.subrange(r1.len() as int + 1, r.len() as int) =~= ev);
+        axiom_dec_enc(SetId::Path, p.version@);
+    } else {
+        assert(r =~= r1);
+        lemma_last_index(r1, '@');
+        assert(p.version@ =~= Seq::<char>::empty());
+    }
+}
+
+/// the name is what follows the last '/' of what precedes the version; the namespace is what precedes it
+pub proof fn lemma_pb_ns_name_gen(p: PurlParts)
+    ensures ({
+        let r1 = r1_of(p);
+        let ns_raw = if last_index_of(r1, '/') < 0 { None::<Seq<char>> } else { Some(r1.subrange(0, last_index_of(r1, '/'))) };
+        let name_raw = if last_index_of(r1, '/') < 0 { r1 } else { r1.subrange(last_index_of(r1, '/') + 1, r1.len() as int) };
+        (match ns_raw { None => Some(Seq::<char>::empty()), Some(x) => ns_fold(split_spec(trim_spec(x, '/'), '/')) }) == Some(sig_ns(p.namespace@))
+        && dec(name_raw) == Some(p.name@)
+    })
+{
+    lemma_lits();
+    let ens = enc(SetId::Path, p.namespace@);
+    let en = enc(SetId::Segment, p.name@);
+    let r1 = r1_of(p);
+    lemma_enc_excludes(SetId::Segment, p.name@, '/');
+    axiom_dec_enc(SetId::Segment, p.name@);
+    if p.namespace@.len() > 0 {
+        assert(r1 =~= ens + seq!['/'] + en);
+        lemma_rsplit_join(ens, en, '/');
+        assert(r1.subrange(0, ens.len() as int) =~= ens);
+        assert(r1.subrange(ens.len() as int + 1, r1.len() as int) =~= en);
+        lemma_ns_roundtrip_gen(p.namespace@);
+    } else {
+        assert(r1 =~= en);
+        lemma_last_index(en, '/');
+        assert(p.namespace@ =~= Seq::<char>::empty());
+        lemma_sig_empty();
+    }
+}
+
+/// C09: phase B on the path part of the canonical string of arbitrary parts
+pub proof fn lemma_phase_b_canon_gen(p: PurlParts)
+    requires gen_parts(p)
+    ensures phase_b(rest_of(p)) == Ok::<PhaseB, ParseError>(PhaseB { ns: sig_ns(p.namespace@), name: p.name@, version: p.version@ })
+{
+    lemma_pb_version_gen(p);
+    lemma_pb_ns_name_gen(p);
+}
+
+/// stage 2: the subpath is what follows the last '#'
+pub proof fn lemma_pa_subpath_gen(ty: Seq<char>, p: PurlParts)
+    requires valid_type(ty), gen_parts(p)
+    ensures
+        rsplit_at(c_b(ty, p), '#').0 == c_l(ty, p),
+        (match rsplit_at(c_b(ty, p), '#').1 { None => Some(Seq::<char>::empty()), Some(x) => sub_fold(split_spec(trim_spec(x, '/'), '/')) }) == Some(sig_sub(p.subpath@)),
+{
+    lemma_lits();
+    let q = p.qualifiers.qualifiers@;
+    let r = rest_of(p);
+    let l2 = c_l2(ty, p);
+    let l = c_l(ty, p);
+    let b = c_b(ty, p);
+    let es = enc(SetId::Fragment, p.subpath@);
+    lemma_type_excludes(ty, '#');
+    lemma_rest_excludes(p, '#');
+    lemma_quals_text_excludes_hash(q);
+    lemma_single_excludes('/', '#');
+    lemma_has_char_concat(ty, seq!['/'], '#');
+    lemma_has_char_concat(ty + seq!['/'], r, '#');
+    lemma_has_char_concat(l2, quals_text(q), '#');
+    assert(!has_char(l, '#'));
+    lemma_enc_excludes(SetId::Fragment, p.subpath@, '#');
+    if p.subpath@.len() > 0 {
+        assert(b =~= l + seq!['#'] + es);
+        lemma_rsplit_join(l, es, '#');
+        assert(b.subrange(0, l.len() as int) =~= l);
+        assert(b.subrange(l.len() as int + 1, b.len() as int) =~= es);
+        lemma_sub_roundtrip_gen(p.subpath@);
+    } else {
+        assert(b =~= l);
+        lemma_last_index(l, '#');
+        assert(p.subpath@ =~= Seq::<char>::empty()); lemma_sig_empty();
+    }
+}
+
+/// stage 3: the qualifiers are what follows the last '?'
+pub proof fn lemma_pa_quals_gen(ty: Seq<char>, p: PurlParts)
+    requires valid_type(ty), gen_parts(p)
+    ensures
+        rsplit_at(c_l(ty, p), '?').0 == c_l2(ty, p),
+        (match rsplit_at(c_l(ty, p), '?').1 {
+            None => Ok::<KV, DqErr>(Seq::<(Seq<char>, Seq<char>)>::empty()),
+            Some(x) => dq_fold(split_spec(x, '&'), Seq::<(Seq<char>, Seq<char>)>::empty()),
+        }) == Ok::<KV, DqErr>(kvs(p.qualifiers.qualifiers@)),
+{
+    lemma_lits();
+    let q = p.qualifiers.qualifiers@;
+    let r = rest_of(p);
+    let l2 = c_l2(ty, p);
+    let l = c_l(ty, p);
+    lemma_type_excludes(ty, '?');
+    lemma_rest_excludes(p, '?');
+    lemma_single_excludes('/', '?');
+    lemma_has_char_concat(ty, seq!['/'], '?');
+    lemma_has_char_concat(ty + seq!['/'], r, '?');
+    assert(!has_char(l2, '?'));
+    if q.len() > 0 {
+        let items = q_items(q);
+        let j = join_with(items, '&');
+        lemma_quals_text_shape(q);
+        assert forall|i: int| 0 <= i < items.len() implies !has_char(#[trigger] items[i], '?') && !has_char(items[i], '&') by {
+            assert(canon_key(q[i].0.0@));
+            lemma_q_item_chars(q[i]);
+            assert(items[i] == q_item(q[i]));
+        }
+        lemma_join_with_excludes(items, '&', '?');
+        assert(l =~= l2 + seq!['?'] + j);
+        lemma_rsplit_join(l2, j, '?');
+        assert(l.subrange(0, l2.len() as int) =~= l2);
+        assert(l.subrange(l2.len() as int + 1, l.len() as int) =~= j);
+        lemma_split_of_join_with(items, '&');
+        lemma_dq_fold_items(q);
+    } else {
+        assert(quals_text(q) =~= Seq::<char>::empty());
+        assert(l =~= l2);
+        lemma_last_index(l2, '?');
+        assert(kvs(q) =~= Seq::<(Seq<char>, Seq<char>)>::empty());
+    }
+}
+
+/// C01 / C09: phase A on the canonical string
+pub proof fn lemma_phase_a_canon_gen(ty: Seq<char>, p: PurlParts)
+    requires valid_type(ty), gen_parts(p)
+    ensures phase_a(canon_spec(ty, p)) == Ok::<PhaseA, ParseError>(PhaseA { ty, rest: rest_of(p), sub: sig_sub(p.subpath@), kv: kvs(p.qualifiers.qualifiers@) })
+{
+    lemma_pa_scheme(ty, p);
+    lemma_pa_subpath_gen(ty, p);
+    lemma_pa_quals_gen(ty, p);
+    lemma_pa_type(ty, p);
+}
+
+/// C01 / C09 / C19, the inverse direction: parsing the canonical string of normalised parts yields exactly those parts
+pub proof fn lemma_parse_canon_gen(ty: Seq<char>, p: PurlParts)
+    requires valid_type(ty), gen_parts(p)
+    ensures
+        phase_a(canon_spec(ty, p)) == Ok::<PhaseA, ParseError>(PhaseA { ty, rest: rest_of(p), sub: sig_sub(p.subpath@), kv: kvs(p.qualifiers.qualifiers@) }),
+        phase_b(rest_of(p)) == Ok::<PhaseB, ParseError>(PhaseB { ns: sig_ns(p.namespace@), name: p.name@, version: p.version@ }),
+{
+    lemma_phase_a_canon_gen(ty, p);
+    lemma_phase_b_canon_gen(p);
 }
 
 
